@@ -133,3 +133,18 @@ Theorem C01_premises_are_satisfiable :
     (3 <= length (emitted evs))%nat /\ In (RPrefix 2 [104; 116; 116; 112; 58; 47; 47; 99; 47]%N) (flat_map f_rows (emitted evs)).
 Proof. exact whole_stream_premises_satisfiable. Qed.
 Print Assumptions C01_premises_are_satisfiable.
+
+(* ---- the same, stated about the functions the driver runs and the correspondence check compares
+   with pyjelly: Api.api_encode and Api.api_parse, any stream class, declarations on or off ---- *)
+From PJ.Model Require Import Api.
+From PJ.Proofs Require Import EncNamespace ApiTheorems.
+Theorem C01_api_round_trip :
+  forall (c : stream_class) (o : soptions) (d : sdata) (s' : stream) (evs : list tev) (grouped : bool),
+    api_encode c Generic o d = Ok (s', evs) -> raised evs = None ->
+    (forall s, stream_new c Generic o = Ok s -> cfg_ok o (st_logical s) /\ fl_rows (st_flow s) = []) ->
+    (c = GraphStream -> forallb wf_quad (d_stmts d) = true) ->
+    Forall small (emitted evs) ->
+    let r := api_parse Generic grouped false (write_delimited (emitted evs)) in
+    flat_events r = ns_events o d ++ events_of c d /\ pr_end r = PEnd.
+Proof. exact api_round_trip. Qed.
+Print Assumptions C01_api_round_trip.
